@@ -18,6 +18,9 @@
 //        stdin lines:  T <pname|-> { | <tname|-> op op ... }     one "|" group per thread; "||" instead of "|" first joins all
 //                      threads started so far (a new phase: later threads do not overlap earlier ones and may be given
 //                      the thread id of a finished one); "|@" runs the script on the main thread, after a join
+//                      W = wait for a save: the thread stops at a barrier; when every thread of the case stands at its k-th W
+//                           the main thread calls saveLog(<path>.s<k>) and releases them (all threads must have equally
+//                           many W; a thread's leading W come before its setThreadName: it starts tracing later)
 //                      op:  B:name:cat  E  M:name:cat  C:name:value  S  R   (cat "-" = null, S = sleep 150us, R = recordMemUse():
 //                           two counters rkTraceVirtMem_B / rkTraceRssMem_B); M goes through RKCOMMON_IF_TRACING_ENABLED(...)
 //        per case:     threads record concurrently through rkcommon::tracing::{beginEvent,...},
@@ -173,14 +176,33 @@ static const char *literal(const std::string &text)
 
 struct ThreadScript { std::string tname; std::vector<std::string> ops; std::string sizes; };
 
+// barrier for the W operation (mutex + condition variable)
+static std::mutex g_wM;
+static std::condition_variable g_wCV;
+static int g_wArrived = 0, g_wRound = 0;
+static bool g_wActive = false;
+static void waitForSave()
+{
+  if (!g_wActive) return;
+  std::unique_lock<std::mutex> lk(g_wM);
+  const int my = g_wRound;
+  ++g_wArrived;
+  g_wCV.notify_all();
+  g_wCV.wait(lk, [&] { return g_wRound > my; });
+}
+
 static void runThread(ThreadScript *ts)
 {
   std::vector<std::vector<std::string>> f;
   f.reserve(ts->ops.size());
   for (auto &op : ts->ops) f.push_back(split(op, ':'));
+  size_t lead = 0;
+  while (lead < f.size() && f[lead][0] == "W") { waitForSave(); ++lead; }
   if (ts->tname != "-") tracing::setThreadName(ts->tname.c_str());
-  for (auto &o : f) {
+  for (size_t oi = lead; oi < f.size(); ++oi) {
+    auto &o = f[oi];
     const std::string &k = o[0];
+    if (k == "W") { waitForSave(); continue; }
     if (k == "B") tracing::beginEvent(literal(o[1]), o[2] == "-" ? nullptr : literal(o[2]));
     else if (k == "E") tracing::endEvent();
     else if (k == "M") { RKCOMMON_IF_TRACING_ENABLED(tracing::setMarker(literal(o[1]), o[2] == "-" ? nullptr : literal(o[2]))); }
@@ -228,15 +250,35 @@ static int mainTrace(const std::string &outdir)
     }
     if (n > 0) tracing::traceRecorder = rkcommon::make_unique<tracing::TraceRecorder>();   // empty recorder per case
     tracing::threadEventList = nullptr;                                                   // and no cached list on the main thread
+    std::string path = outdir + "/trace_" + std::to_string(n++) + ".json";
+    // saves in the middle of the history: only for single-phase cases whose threads all have the same number of W
+    int K = -1; bool sameK = !scripts.empty() && ph == 0;
+    for (size_t i = 0; i < scripts.size() && sameK; ++i) {
+      int c = 0; for (auto &o : scripts[i].ops) if (o == "W") ++c;
+      if (phase[i] == -1) sameK = false;
+      if (K < 0) K = c; else if (K != c) sameK = false;
+    }
+    g_wActive = sameK && K > 0;
+    g_wArrived = 0; g_wRound = 0;
     for (int p = 0; p <= ph; ++p) {
       std::vector<std::thread> th;
       for (size_t i = 0; i < scripts.size(); ++i) {
         if (phase[i] == p) th.emplace_back(runThread, &scripts[i]);
         else if (phase[i] == -1 && mainAfter[i] == p) runThread(&scripts[i]);
       }
+      if (g_wActive) {
+        for (int k = 0; k < K; ++k) {
+          std::unique_lock<std::mutex> lk(g_wM);
+          g_wCV.wait(lk, [&] { return g_wArrived == (int)scripts.size() * (k + 1); });
+          const std::string sp = path + ".s" + std::to_string(k);
+          std::remove(sp.c_str());
+          tracing::saveLog(sp.c_str(), pname == "-" ? nullptr : pname.c_str());
+          g_wRound = k + 1;
+          g_wCV.notify_all();
+        }
+      }
       for (auto &t : th) t.join();
     }
-    std::string path = outdir + "/trace_" + std::to_string(n++) + ".json";
     std::remove(path.c_str());
     tracing::saveLog(path.c_str(), pname == "-" ? nullptr : pname.c_str());
     std::cout << path << " ";
